@@ -4,6 +4,7 @@ import copy as _copy
 import numpy as np
 
 from . import tables as T
+from .c06 import apply_pre
 from .core import canon, jhash
 
 ID = 'C07'
@@ -251,7 +252,8 @@ def run_impl(c):
 
 
 def _build_pair(c):
-    return T.build(c['spec']), (T.build(c['other']) if c.get('other') else None)
+    # 'pre': a prior history that used to leave all-empty metadata dicts behind (F40, see harness/c06.py apply_pre)
+    return apply_pre(T.build(c['spec']), c.get('pre')), (T.build(c['other']) if c.get('other') else None)
 
 
 def _content_kind(c):
